@@ -33,3 +33,8 @@ claim('C14', 'exploration',
       'Trusted: pysam FastaFile.fetch, get_aligned_pairs, MD parsing. Correct MD tags; NlaIII motif checking disabled (C09 covers it).',
       'property-based testing (Hypothesis) against an independent reference methylation caller',
       'DESIGN.md section 4, C14')
+claim('C09', 'exploration',
+      'Hypothesis-generated cuts on random references, each materialised as a forward fragment and as its mirror image on the reverse-complemented reference (NlaIIIFragment / CHICFragment; soft clips 0..6, motif mismatches, cycle shifts, single/paired/unmapped mate, check_motif, allow_cycle_shift, invert_strand, no_umi_cigar_processing, trimmed/untrimmed scCHIC); DS / RS / validity / qc-fail are compared with the simulator\'s cut coordinate and through the mirror map, and two PCR copies of one cut must be equal in both orientations.',
+      'Trusted: pysam AlignedSegment geometry. Under no_umi_cigar_processing only the mirror relation is asserted; trimmed scCHIC layout = one base removed.',
+      'property-based testing (Hypothesis) with a ground-truth simulator oracle + metamorphic mirror relation',
+      'DESIGN.md section 4, C09')
